@@ -446,6 +446,9 @@ def run(ctx: Ctx) -> None:
 
 
 MUTANTS = [
+    ("duplicate-address-accepted", "vmnet/netconfig.py", "        if interface_net_ip == self.net_ip and interface.ip in self.interfaces.keys():\n            raise IndexError(", "        if False:\n            raise IndexError(", "5"),
+    ("host-left-behind", "vmnet/network.py", "            nic_params[\"host\"] = netconfig.translate_address(netconfig.host_ip, new_ip)\n", "            pass\n", "9"),
+    ("no-gateway-translated", "vmnet/network.py", "        if netconfig.gateway != \"0.0.0.0\":\n            nic_params[\"ip_provider\"]", "        if True:\n            nic_params[\"ip_provider\"]", "9g"),
     ("reattach-keeps-old-address", "vmnet/network.py", "        interface.ip = netconfig.get_allocatable_address()\n        netconfig.add_interface(interface)", "        netconfig.add_interface(interface)", "4o"),
     ("reattach-joins-before-leaving", "vmnet/network.py", "        del interface.netconfig.interfaces[interface.ip]\n        # attach to the new network - with validation and proper attribute update\n        interface.ip = netconfig.get_allocatable_address()\n        netconfig.add_interface(interface)",
      "        interface.ip = netconfig.get_allocatable_address()\n        netconfig.add_interface(interface)\n        del interface.netconfig.interfaces[interface.ip]", "4"),
